@@ -31,6 +31,36 @@ CLAIMS = {
              "sampling); float ceil/log2 in ShardVolumeSpec assumed exact below 2^53 (checked per sample).",
         technique="Lean 4 proof (digit-list injectivity, testBit extensionality) + differential correspondence",
         ref="DESIGN.md §6 C09"),
+    "C05": dict(
+        text="Lean 4 theorems about the write-side reorder buffer (MiniShard store/flush/close) instantiated "
+             "with the code's next_cmc formula: any two histories storing the same set of distinct chunks, "
+             "in ANY order, never raise and close to identical data bytes and index rows (hence identical "
+             "shard files); reading the closed minishard back returns the stored bytes for every stored "
+             "id, an empty payload for skipped ids and nothing beyond the last one. Tie: after every store "
+             "the real MiniShard's state (_appended, _last_chunk_id, buffered keys, data length, header "
+             "rows) is compared with the Lean state machine, both buffering strategies; whole datasets are "
+             "written twice (different order/strategy), compared byte for byte with each other and with "
+             "Lean's Shard.assemble, and every stored / never-stored chunk is fetched via a fresh accessor.",
+        note="Trusted: Lean kernel; standard axioms; hand-written model (tie = sampling, thorough adds all "
+             "permutations of small subsets); next_cmc assumed not to wrap (bits <= 64); zlib deterministic.",
+        technique="Lean 4 proof (invariant over operation histories, rank measure for gap filling) + "
+                  "state-level differential correspondence",
+        ref="DESIGN.md §6 C05"),
+    "C04": dict(
+        text="Lean 4 theorem specFetch_assemble: a reader written only from the sharded-format text, applied "
+             "to the bytes Shard.close writes (model tied byte-for-byte to the real files), returns exactly "
+             "the stored bytes of every chunk of every minishard that sits at the slot the specification "
+             "prescribes — for all bit triples, any number of minishards, any subset and order of stores, "
+             "all payloads (composition with C05's theorems); never-stored ids yield nothing or an empty "
+             "payload. The remaining case (a lower-numbered minishard unused) is FALSE of the code: "
+             "kernel-checked counterexample theorem + known finding F8; gzip-vs-zlib is known finding F10. "
+             "Tie/oracle: real datasets read back from disk by an independent strict specification reader "
+             "and by Lean's specFetch.",
+        note="Trusted: Lean kernel; standard axioms; hand-written file-layout model (tie = byte comparison "
+             "of real shard files with the model on sampled datasets); file sizes < 2^64; gzip/zlib external.",
+        technique="Lean 4 proof (byte-level layout lemmas, LE round trip, refinement to the minishard "
+                  "model) + specification-reader oracle on real files",
+        ref="DESIGN.md §6 C04"),
 }
 
 ALL = ["C%02d" % i for i in range(1, 21)]
